@@ -6,6 +6,7 @@ import (
 	"fmt"
 	"sort"
 	"strings"
+	"time"
 
 	leanhelix "github.com/orbs-network/lean-helix-go"
 	"github.com/orbs-network/lean-helix-go/services/interfaces"
@@ -83,6 +84,8 @@ type Monitors struct {
 	JudgeC11 bool
 	// known findings triggered in this case (name -> true); later violations carry them as possible root cause
 	taint map[string]bool
+	// nodes whose worker recovered from a panic during the current step: their storage is probed afterwards
+	probe map[string]bool
 }
 
 func NewMonitors(w *World) *Monitors {
@@ -326,6 +329,10 @@ func isEffect(e *spi.Event) bool {
 func (m *Monitors) PostDelivery(d *deliveryCtx, effects []spi.Event, panicked bool) {
 	n, f := d.n, d.f
 	m.cur = nil
+	if m.probe[n.Id] {
+		delete(m.probe, n.Id)
+		m.probeStorage(n)
+	}
 	m.sample(n)
 	if f.Msg == nil {
 		// undecodable bytes: any effect at all is an influence by an unauthenticated message
@@ -457,6 +464,10 @@ func (m *Monitors) PostTimeout(n *Node, pre *deliveryCtx, h, v uint64, effects [
 // Dropping bytes the reference decoder cannot read either is the intended behaviour; a panic while
 // handling a message that decodes completely is a defect in the handling code.
 func (m *Monitors) OnRecoveredPanic(n *Node, r interface{}) {
+	if m.probe == nil {
+		m.probe = map[string]bool{}
+	}
+	m.probe[n.Id] = true
 	if pr, msg, ok := leanhelix.VerifFilterPanicOf(r); ok {
 		// recovered by the height filter: msg is the message that was being processed (the delivered one or a cached one)
 		var raw *interfaces.ConsensusRawMessage
@@ -1246,5 +1257,33 @@ func (m *Monitors) judgeElection(d *deliveryCtx, effects []spi.Event) {
 	m.violate("C11", "leader-with-quorum-of-votes-not-elected", "node %s holds stored VIEW_CHANGE votes of quorum weight for h=%d v=%d (it is that view's leader, its view was %d) but did not send a NEW_VIEW", n.Id, msg.H, msg.V, d.pre.V)
 	if iv, ok := nm.ignoredNV[msg.H]; ok && iv >= msg.V {
 		m.violate("C08", "must-ignore-new-view-suppressed-a-later-election", "node %s was earlier sent a NEW_VIEW for view %d that must be ignored; now its own election for view %d (authentic votes of quorum weight) does not happen", n.Id, iv, msg.V)
+	}
+}
+
+// probeStorage: a panic that the worker or the height filter recovered from must not leave the node's message storage
+// locked (a lock taken without a deferred unlock stays taken when the code under it panics; the next access then blocks the
+// worker for good). Every accessor of the Storage SPI is called from a helper goroutine; one that has not returned after
+// 10 s (its normal cost is nanoseconds) is reported and the node is taken out of the schedule, since the next delivery
+// would hang the worker.
+func (m *Monitors) probeStorage(n *Node) {
+	m.Stats["C12 storage probes after a recovered panic"]++
+	done := make(chan struct{})
+	h := primitivesH(uint64(n.St.Height()))
+	go func() {
+		defer close(done)
+		defer func() { recover() }()
+		st := n.Store.Storage
+		st.GetLatestPreprepare(h)
+		st.GetPreprepareMessage(h, 0)
+		st.GetPrepareSendersIds(h, 0, nil)
+		st.GetCommitSendersIds(h, 0, nil)
+		st.GetViewChangeMessages(h, 0)
+	}()
+	select {
+	case <-done:
+	case <-time.After(10 * time.Second):
+		n.Wedged = true
+		m.w.Aborted = true
+		m.violate("C12", "storage-left-locked-by-a-recovered-panic", "node %s: after a panic that the worker recovered from, the accessors of its message storage do not return (10 s): the lock is still held, the next message that touches the storage blocks the worker for good", n.Id)
 	}
 }
